@@ -134,8 +134,29 @@ def _local_map(fn_node) -> dict[str, str]:
 
     visit(fn_node)
     m = {n: f"${k}" for k, n in enumerate(x for x in order if x not in params and x not in skip)}
+    # parameters of a private function (underscore name, not a dunder) are free to be renamed as well: $p<i> by position
+    fname = getattr(fn_node, "name", "")
+    if a is not None and fname.startswith("_") and not (fname.startswith("__") and fname.endswith("__")):
+        for i, x in enumerate(a.posonlyargs + a.args + a.kwonlyargs):
+            if x.arg not in ("self", "cls"):
+                m[x.arg] = f"$p{i}"
     _LOCALS_CACHE[id(fn_node)] = m
     return m
+
+
+def _conditionally_evaluated(x: ast.AST, stmt: ast.AST) -> bool:
+    """x sits in a part of stmt that is not evaluated every time stmt is (later operand of and/or, conditional
+    expression branch, lambda or comprehension body)."""
+    child, p = x, getattr(x, "_parent", None)
+    while p is not None and child is not stmt:
+        if isinstance(p, ast.BoolOp) and p.values and p.values[0] is not child:
+            return True
+        if isinstance(p, ast.IfExp) and child is not p.test:
+            return True
+        if isinstance(p, (ast.Lambda, ast.ListComp, ast.SetComp, ast.DictComp, ast.GeneratorExp)):
+            return True
+        child, p = p, getattr(p, "_parent", None)
+    return False
 
 
 def cnorm(node: ast.AST, fn_node) -> str:
@@ -613,7 +634,7 @@ class Effects:
                 self._sum[f.key].mods.add((tag, f"{fld}[]"))
                 q = self._qual(f, base.value, fld) if isinstance(base, ast.Attribute) else fld
                 self._sum[f.key].qmods.add((tag, q))
-                if delete:
+                if delete and not self._key_witnessed(f, stmt, base, t.slice):
                     rej = Rej(f.key, f"key of `{cnorm(stmt, f.node)}` absent", "KeyError", stmt)
                     evs.append(Event("C", stmt, f"{norm(stmt)} may raise", [rej], loop=loop))
                 elif self._may_be_slice(f, t.slice) and self._is_list(f, base):
@@ -621,6 +642,90 @@ class Effects:
                     rej = Rej(f.key, f"`{norm(t.slice)}` is an extended slice and the assigned sequence has another size", "ValueError", stmt)
                     evs.append(Event("C", stmt, f"{norm(stmt)} may raise", [rej], loop=loop))
                 evs.append(Event("M", stmt, f"{norm(t)} {'deleted' if delete else 'stored'}", loop=loop, tags=[tag], fields=[f"{fld}[]"], qfields=[q]))
+
+    # ------------------------------------------------------ key presence witnessed before a delete
+    def _pure_value_of(self, f: FuncInfo, e: ast.AST, depth: int = 0) -> str:
+        """Text of e with walrus bindings and single-assignment locals replaced by the expressions they stand for
+        (`value_id` bound once by `(value_id := id(value))` reads as `id(value)`)."""
+        from .index import own_nodes
+
+        binds = getattr(f, "_single_binds", None)
+        if binds is None:
+            counts: dict[str, list] = {}
+            for n in own_nodes(f.node):
+                if isinstance(n, ast.NamedExpr):
+                    counts.setdefault(n.target.id, []).append(n.value)
+                elif isinstance(n, ast.Assign):
+                    for t in n.targets:
+                        for x in ast.walk(t):
+                            if isinstance(x, ast.Name):
+                                counts.setdefault(x.id, []).append(n.value if t is x else None)
+                elif isinstance(n, (ast.AugAssign, ast.AnnAssign)) and isinstance(n.target, ast.Name):
+                    counts.setdefault(n.target.id, []).append(None)
+                elif isinstance(n, (ast.For, ast.comprehension)):
+                    for x in ast.walk(n.target):
+                        if isinstance(x, ast.Name):
+                            counts.setdefault(x.id, []).append(None)
+            binds = {k: v[0] for k, v in counts.items() if len(v) == 1 and v[0] is not None and k not in f.params}
+            f._single_binds = binds
+
+        def rec(x, d):
+            if isinstance(x, ast.NamedExpr):
+                return rec(x.value, d)
+            if isinstance(x, ast.Name) and x.id in binds and d < 3:
+                v = binds[x.id]
+                if isinstance(v, (ast.Call, ast.Name, ast.Attribute, ast.Constant)) and not any(isinstance(y, ast.NamedExpr) and y.target.id == x.id for y in ast.walk(v)):
+                    return rec(v, d + 1)
+            if isinstance(x, ast.Call) and isinstance(x.func, ast.Name) and len(x.args) == 1 and not x.keywords:
+                return f"{x.func.id}({rec(x.args[0], d)})"
+            if isinstance(x, ast.Attribute):
+                return f"{rec(x.value, d)}.{x.attr}"
+            return norm(x)
+
+        return rec(e, depth)
+
+    def _key_witnessed(self, f: FuncInfo, stmt, base, key) -> bool:
+        """`del D[K]` cannot raise KeyError when the presence of the same key in the same container was established
+        earlier on every path to it: by a guard `if K not in D: raise/return`, or by an unconditional read `D[K]`, in a
+        statement that precedes the delete in its own block or in an enclosing block - with no removal from D in between."""
+        want_d, want_k = norm(base), self._pure_value_of(f, key)
+        chain = []
+        n = stmt
+        while n is not None and n is not f.node:
+            chain.append(n)
+            n = getattr(n, "_parent", None)
+        for anc in chain:
+            blk_owner = getattr(anc, "_parent", None)
+            if blk_owner is None:
+                continue
+            for fld in ("body", "orelse", "finalbody"):
+                blk = getattr(blk_owner, fld, None)
+                if not (isinstance(blk, list) and anc in blk):
+                    continue
+                before = blk[: blk.index(anc)]
+                for j in range(len(before) - 1, -1, -1):
+                    s = before[j]
+                    # anything that may remove keys from D between the witness and the delete spoils it
+                    spoil = False
+                    for x in ast.walk(s):
+                        if isinstance(x, ast.Delete) and any(isinstance(t, ast.Subscript) and norm(t.value) == want_d for t in x.targets):
+                            spoil = True
+                        if isinstance(x, ast.Call) and isinstance(x.func, ast.Attribute) and norm(x.func.value) == want_d \
+                                and x.func.attr in ("pop", "popitem", "clear"):
+                            spoil = True
+                    if spoil:
+                        return False
+                    if isinstance(s, ast.If) and s.body and isinstance(s.body[-1], (ast.Raise, ast.Return)) and not s.orelse:
+                        t = s.test
+                        if isinstance(t, ast.Compare) and len(t.ops) == 1 and isinstance(t.ops[0], ast.NotIn) \
+                                and norm(t.comparators[0]) == want_d and self._pure_value_of(f, t.left) == want_k:
+                            return True
+                    if isinstance(s, (ast.Assign, ast.Expr, ast.AnnAssign, ast.AugAssign)):
+                        for x in ast.walk(s):
+                            if isinstance(x, ast.Subscript) and isinstance(x.ctx, ast.Load) and norm(x.value) == want_d \
+                                    and self._pure_value_of(f, x.slice) == want_k and not _conditionally_evaluated(x, s):
+                                return True
+        return False
 
     def _call(self, f, call: ast.Call, evs, loop) -> None:
         d = dotted_of(call.func) or ""
